@@ -281,6 +281,42 @@ func runC14(c *rt.Ctx) {
 	c.Require("pair-in-C06-excluded-zone", 1000)
 	c.Require("pair-different-byte-lengths", 10000)
 
+	// identifier lists built from identifiers of different lengths that the comparator may rank equal
+	// (rc / rc0 / rc00, a1 / a01) followed by tails of different lengths: every way of walking two lists
+	// in step has to agree under the swap of the arguments
+	{
+		idents := []string{"rc", "rc0", "rc00", "a1", "a01", "x", "1", "11", "b", "bb", "0"}
+		if !c.Quick() {
+			idents = append(idents, "a001", "x0", "10", "-")
+		}
+		var lists []string
+		for _, i1 := range idents {
+			lists = append(lists, i1)
+			for _, i2 := range idents {
+				lists = append(lists, i1+"."+i2)
+				for _, i3 := range idents {
+					lists = append(lists, i1+"."+i2+"."+i3)
+				}
+			}
+		}
+		c.Extra("identifier_list_universe", len(lists))
+		c.Parallel("identifier-lists", 0, func(w *rt.W) {
+			for i := w.Shard; i < len(lists); i += w.NShards {
+				for j := range lists {
+					a := sem.Ver{Major: 1, PreRelease: lists[i]}
+					b := sem.Ver{Major: 1, PreRelease: lists[j]}
+					c14Pair(w, a, b)
+					if len(lists[i]) == len(lists[j]) && lists[i] != lists[j] {
+						w.ClassN("identifier-lists-same-byte-length-different-shape", 1)
+						w.NT(1)
+					}
+				}
+			}
+		})
+		c.Exhaustive(fmt.Sprintf("all ordered pairs of the %d identifier lists of 1..3 identifiers over %v", len(lists), idents))
+		c.Require("identifier-lists-same-byte-length-different-shape", 100000)
+	}
+
 	nRand := c.Pick(400000, 20000000)
 	c.Parallel("random-versions", 0, func(w *rt.W) {
 		comp := func() uint64 {
